@@ -473,6 +473,14 @@ AppClose ==
        /\ script' = [WrScript(script, w) EXCEPT !.react = Append(@, ReactRec("close"))]
        /\ L' = [L EXCEPT !.closing = TRUE, !.sentClose = SessionTime]
 
+\* close() with a reason that does not fit in a control frame (124 bytes): refused with ValueError before anything
+\* is written or changed (a no-op, as any close(), once the connection is closing or closed)
+LongReason == [i \in 1..124 |-> 97 + (i % 26)]
+AppBadClose ==
+  /\ obs' = Append(obs, CallRec("close", IF L.closed \/ L.closing THEN "ok" ELSE "ValueError", FALSE, 0, [code |-> 1000, reason |-> PV(LongReason)]))
+  /\ script' = [script EXCEPT !.react = Append(@, ReactRec("badclose"))]
+  /\ UNCHANGED L
+
 AppReact ==
   /\ pc = "yielded"
   /\ LET name == LastEvent.name IN
@@ -482,6 +490,7 @@ AppReact ==
              /\ \/ a = "send"  /\ AppSend("send_text", OpText, PV(<<120>>))
                 \/ a = "ping"  /\ AppSend("send_ping", OpPing, PV(<<>>))
                 \/ a = "close" /\ AppClose
+                \/ a = "badclose" /\ AppBadClose
              /\ E' = [E EXCEPT !.nReacts = @ + 1]
         /\ Return /\ UNCHANGED <<inq, fk>>
      \/ /\ name \in AbandonAt
